@@ -41,7 +41,19 @@ CLA_RULE = ("one evaluation = one seeded trace over {register, register same add
             "replayed against the real cla.Manager under the fake clock and compared step by step with a reference state machine; non-trivial = at least one "
             "failed start or peer loss happened; distinct = distinct canonical log (listing + per-adapter Start/Close history after every step).")
 
+STORE_RULE = ("one evaluation = one seeded operation sequence over {push bundle, push fragment (grid-aligned and odd ranges: exact covers, overlaps, containment, duplicates), "
+              "two concurrent fragment pushes released in a seeded order at the store's write hooks, update pending/property/expiry, delete, expiry sweep, advance, close+reopen}, "
+              "with a crash armed at the 1st..3rd instrumented point inside 30% of the pushes/deletes (directory copied while the operation is parked there, a store and in a "
+              "third of the runs a whole node opened on the copy); compared with an in-memory reference map after every operation. Non-trivial = a crash point, an interleaving "
+              "or a reopen happened; distinct = distinct canonical log.")
+
 PROPS = {
+    "C08": {"pkg": "pkg/routing", "binary": "routing.test", "harness": "store", "focus": "C08", "variants": [""],
+            "budget": {"quick": 60, "thorough": 1200}, "level": "exploration", "rule": STORE_RULE,
+            "real": ["storage.Store on badgerhold/badger with real files under /dev/shm", "storage.BundleItem/BundlePart (part files, Load, IsComplete)", "bpv7 reassembly as used by the store", "routing.Core started on the post-crash directory"],
+            "stub": ["OS crash: directory copied while the operation is parked at a hook (process-kill model: every completed write survives)", "disk faults below the file API: not injected"],
+            "assumptions": COMMON_ASSUME + ["part files are referenced by absolute path in the index; the post-crash store reads them from the live directory at the instant of the crash (unchanged while the operation is parked)"],
+            "required_probes": ["crash_point", "reopen", "rmw_interleave", "complete_record_loaded"]},
     "C16": {"pkg": "pkg/cla", "binary": "cla.test", "harness": "cla", "focus": "C16", "variants": [""],
             "budget": {"quick": 40, "thorough": 900}, "level": "exploration", "rule": CLA_RULE,
             "real": ["cla.Manager (handler goroutine, retry ticker, registration table)", "convergenceElem activate/deactivate/handler"],
@@ -60,6 +72,10 @@ NODE_NOTE = ("trusted: Go 1.26.8 runtime + testing/synctest fake clock, the harn
              "not covered: real sockets, disk faults below the file API, backward clock jumps; sampling only")
 
 MANIFEST_TEXT = {
+    "C08": {"text": "Seeded operation sequences on the real store against a reference map, with a simulated process kill at every instrumented point of Push/Delete "
+                    "(durable state = directory contents at that instant; a store and a node are started on it), forced orders of two concurrent fragment pushes, and "
+                    "close/reopen; oracle: exact lookups, byte-identical parts, pending query, one record per bundle with each distinct fragment once, complete iff covered, reassembly = original.",
+            "design_ref": "DESIGN.md §4 C08", "note": "trusted: badger's own durability (SyncWrites), tmpfs semantics, the reference map; disk-level faults not modelled; sampling only", "technique": DST},
     "C16": {"text": "Seeded traces of adapter life-cycle events replayed against the real cla.Manager under the fake clock; after every settled step the "
                     "Sender()/Receiver() listing and every adapter's Start/Close history are compared with a reference state machine derived from the "
                     "statement (active iff latest start succeeded and not closed since, retry budget, permanent retries, single instance, close once, no panic).",
